@@ -63,14 +63,24 @@ def i2fOk (a r pl : Nat) : Bool :=
   let e := i2f a
   (if int32 a = 0 then r == 0 else (normal r && decide (sval r = e.1))) && pl == e.2
 
-/-- fixed point `(aw, f1)`: the `aw`-bit two's-complement word `a` denotes `a · 2^(f1 + 1 − aw)`: value·2^149 as an
-    integer needs `f1 + 150 − aw ≥ 0` -/
+/-- fixed point `(aw, f1)` (FixedPointtoFP_SP, format tuple f = (sign, f1, aw−1−f1)): the `aw`-bit two's-complement word `a`
+    denotes `x · 2^(f1 + 1 − aw)`, `x = toSigned aw a`.  Biased exponent of that exact value (n = |x| ≠ 0):
+    ⌊log2 (n · 2^(f1+1−aw))⌋ + 127.  The exact value is in the NORMAL range iff this is in 1..254. -/
+def fxBiased (aw : Nat) (f1 : Int) (n : Nat) : Int := (n.log2 : Int) + f1 + 128 - (aw : Int)
+/-- the domain of the conversion's value claim: a legal width, an `aw`-bit word, and the exact value 0 or normal -/
+def fxDomain (aw : Nat) (f1 : Int) (a : Nat) : Bool :=
+  let x := Bits.toSigned aw (a % 2^aw)
+  decide (1 ≤ aw) && decide (aw ≤ 32) && decide (a < 2^aw) &&
+    (decide (x = 0) || (decide (1 ≤ fxBiased aw f1 x.natAbs) && decide (fxBiased aw f1 x.natAbs ≤ 254)))
+/-- oracle: observed `(r, p_lost)`: zero ↦ +0; otherwise `r` is a normal encoding of `x·2^(f1+1−aw)` truncated toward zero to
+    24 significant bits — stated with both sides scaled by 2^aw so that it is an integer equation for EVERY format:
+    `sval r · 2^aw = ± truncSig |x| · 2^(f1+150)` (inside `fxDomain`, f1 + 150 ≥ 24) — and p_lost = [truncation discarded ≠ 0] -/
 def fx2fOk (aw : Nat) (f1 : Int) (a r pl : Nat) : Bool :=
   let x := Bits.toSigned aw (a % 2^aw)
-  let sh := f1 + 150 - (aw : Int)
-  if sh < 0 then true else
-  let v := (if x < 0 then -1 else 1) * ((truncSig x.natAbs : Nat) : Int) * 2^sh.toNat
-  (if x = 0 then r == 0 else (normal r && decide (sval r = v))) && pl == b2n (lostSig x.natAbs)
+  (if x = 0 then r == 0 else
+     (normal r && decide (0 ≤ f1 + 150) &&
+      decide (sval r * 2^aw = (if x < 0 then -1 else 1) * ((truncSig x.natAbs : Nat) : Int) * 2^(f1 + 150).toNat)))
+  && pl == b2n (lostSig x.natAbs)
 
 /-! ### float → integer -/
 /-- |x| < 2^31 -/
@@ -99,6 +109,12 @@ def prodNormal (a b : Nat) : Bool := decide (2^172 ≤ (prod a b).natAbs) && dec
 def mulOk (a b r : Nat) : Bool :=
   normal r && decide ((sval r * 2^149 - prod a b).natAbs < ulp r * 2^149)
 
+/-- TIGHTENED multiplier statement (theorem `C13.fpmul_tight`; the property's own bound is `mulOk`): the result has the sign
+    sa xor sb, is obtained by truncation TOWARD ZERO (|r| ≤ |a·b|) and the error is below one ulp of the result -/
+def mulTight (a b r : Nat) : Bool :=
+  normal r && decide (signOf r = (signOf a + signOf b) % 2) &&
+  decide (mag r * 2^149 ≤ mag a * mag b) && decide (mag a * mag b - mag r * 2^149 < ulp r * 2^149)
+
 /-! ### adder -/
 def sum (a b : Nat) : Int := sval a + sval b
 def sumNormal (a b : Nat) : Bool := inNormalRange (sum a b)
@@ -107,12 +123,63 @@ def ulpMax (a b : Nat) : Nat := 2^(max (expOf a) (expOf b) - 1)
 /-- `r` normal, sign of the exact sum, |decode r − (a+b)| < 2 ulp(larger operand) -/
 def addOk (a b r : Nat) : Bool :=
   normal r && decide ((sval r < 0) = (sum a b < 0)) && decide ((sval r - sum a b).natAbs < 2 * ulpMax a b)
+/-- TIGHTENED adder statement (theorem `C13.fpadd_tight`; the property's own bound is `addOk`):
+    effective addition (equal signs): truncation toward zero (|r| ≤ |a+b|), error below ONE ulp of the RESULT;
+    effective subtraction (opposite signs): |r| ≥ |a+b| (the aligned operand is truncated before it is subtracted) and the
+    error is below ONE ulp of the operand of larger magnitude -/
+def addTight (a b r : Nat) : Bool :=
+  if signOf a = signOf b then
+    decide (mag r ≤ (sum a b).natAbs) && decide ((sval r - sum a b).natAbs < ulp r)
+  else
+    decide ((sum a b).natAbs ≤ mag r) && decide ((sval r - sum a b).natAbs < ulpMax a b)
 def expGap (a b : Nat) : Nat := max (expOf a) (expOf b) - min (expOf a) (expOf b)
 /-- known-finding class: exponent gap ≥ 32 (complement of the hypothesis of `fpadd_sign_ulp_partial`) -/
 def gapClass (a b : Nat) : Bool := decide (32 ≤ expGap a b)
 
+/-! ### operands OUTSIDE the property's domain (zero, subnormal, ∞, NaN): value / order keys used by the characterisation
+    theorems `C13.fpcmp_total_order`, `C13.fpcmp_abs_all`, `C13.fpcmp_finite` (not part of the property's oracle) -/
+/-- |value|·2^149 of ANY finite encoding: exponent field 0 (zero, subnormal) denotes `frac·2^-149`, otherwise `mag`.  Continued
+    formally on exponent field 255 (∞ ↦ 2^128·2^149, NaNs above it by payload), where it is only an order key. -/
+def magx (x : Nat) : Nat := if expOf x = 0 then fracOf x else mag x
+/-- value·2^149 of any finite encoding (+0 and −0 both 0) -/
+def svalx (x : Nat) : Int := if signOf x = 1 then -(magx x : Int) else (magx x : Int)
+/-- key of the IEEE-754 `totalOrder` predicate: −NaN < −∞ < negative finite < −0 < +0 < positive finite < +∞ < +NaN -/
+def tkey (x : Nat) : Int := if signOf x = 1 then -(magx x : Int) - 1 else (magx x : Int)
+/-- an encoding of a finite number or ±∞ (not NaN) -/
+def notNaN (x : Nat) : Bool := decide (expOf x ≤ 254) || decide (fracOf x = 0)
+
+/-! ### characterisation checks outside the domain (what `C13.fpcmp_totalOrder`, `fpcmp_abs_total`, `fpmul_zero_operand`,
+    `fpadd_zero_operand`, `fpadd_exact_cancellation` say the blocks do), evaluated on the OBSERVED outputs of the real blocks.
+    `none` = no characterisation theorem covers this input.  A failure here is NOT a violation of the property (it claims
+    nothing there): the harness reports it as a model-vs-implementation disagreement. -/
+def isZeroEnc (x : Nat) : Bool := decide (expOf x = 0) && decide (fracOf x = 0)
+def charCheck (blk : String) (a b : Nat) (o : List Nat) : Option Bool :=
+  match blk with
+  | "cmp" => some (o == [b2n (decide (tkey b < tkey a)), b2n (decide (tkey a = tkey b)), b2n (decide (tkey a < tkey b))])
+  | "cmpabs" => some (o == [b2n (decide (magx b < magx a)), b2n (decide (magx a = magx b)), b2n (decide (magx a < magx b))])
+  | "mul" =>
+    if isZeroEnc a then some (o == [((signOf a + signOf b) % 2) * 2^31 + ((expOf b + 129) % 256) * 2^23])
+    else if isZeroEnc b then some (o == [((signOf a + signOf b) % 2) * 2^31 + ((expOf a + 129) % 256) * 2^23])
+    else none
+  | "add" =>
+    if isZeroEnc b && decide (1 ≤ expOf a) then some (o == [a])
+    else if isZeroEnc a && decide (1 ≤ expOf b) then some (o == [b])
+    else if decide (1 ≤ expOf a) && decide (expOf a = expOf b) && decide (fracOf a = fracOf b) && decide (signOf a ≠ signOf b) then
+      some (o == [signOf a * 2^31 + ((expOf a + 232) % 256) * 2^23])
+    else none
+  | _ => none
+def outVerdict (blk : String) (a b : Nat) (o : List Nat) : String :=
+  if a < 2^32 && b < 2^32 then
+    match charCheck blk a b o with
+    | some true => "out:char-ok"
+    | some false => "out:char-FAIL"
+    | none => "out"
+  else "out"
+
 /-! ### oracle dispatcher: block, params, inputs, OBSERVED outputs ↦ (verdict, class)
-    verdict: "ok" | "out" (inputs outside the property's domain) | "FAIL:<what>"; class: "" or a known-finding class -/
+    verdict: "ok" (property holds, tightened bound too) | "ok-not-tight" (property holds, `mulTight`/`addTight` does not: model and
+    implementation must differ) | "out" / "out:char-ok" / "out:char-FAIL" (inputs outside the property's domain, with the
+    characterisation check where one exists) | "FAIL:<what>"; class: "" or a known-finding class -/
 def g (l : List Nat) (i : Nat) : Nat := l.getD i 0
 def showT (t : Nat × Nat × Nat) : String := s!"{t.1},{t.2.1},{t.2.2}"
 
@@ -123,18 +190,18 @@ def oracle (blk : String) (p : List Int) (x o : List Nat) : String × String :=
   | "cmp" =>
     if normal a && normal b then
       (if [ (cmp a b).1, (cmp a b).2.1, (cmp a b).2.2 ] = o then "ok" else s!"FAIL:expected {showT (cmp a b)}", "")
-    else ("out", "")
+    else (outVerdict blk a b o, "")
   | "cmpabs" =>
     if normal a && normal b then
       (if [ (cmpAbs a b).1, (cmpAbs a b).2.1, (cmpAbs a b).2.2 ] = o then "ok" else s!"FAIL:expected {showT (cmpAbs a b)}", "")
-    else ("out", "")
+    else (outVerdict blk a b o, "")
   | "i2f" =>
     if a < 2^32 then
       (if i2fOk a (g o 0) (g o 1) then "ok" else s!"FAIL:expected value*2^149 = {(i2f a).1} p_lost = {(i2f a).2}", "")
     else ("out", "")
   | "fx2f" =>
     let aw := (p.getD 0 0).toNat
-    if a < 2^aw then
+    if fxDomain aw (p.getD 1 0) a then
       (if fx2fOk aw (p.getD 1 0) a (g o 0) (g o 1) then "ok" else "FAIL:fixed-point value / p_lost", "")
     else ("out", "")
   | "f2i" =>
@@ -145,13 +212,15 @@ def oracle (blk : String) (p : List Int) (x o : List Nat) : String × String :=
     else ("out", "")
   | "mul" =>
     if normal a && normal b && prodNormal a b then
-      (if mulOk a b (g o 0) then "ok" else s!"FAIL:abs(r*2^149 - a*b) >= ulp(r)*2^149 or r not normal; a*b = {prod a b}", "")
-    else ("out", "")
+      (if mulOk a b (g o 0) then (if mulTight a b (g o 0) then "ok" else "ok-not-tight")
+       else s!"FAIL:abs(r*2^149 - a*b) >= ulp(r)*2^149 or r not normal; a*b = {prod a b}", "")
+    else (outVerdict blk a b o, "")
   | "add" =>
     if normal a && normal b && sumNormal a b then
-      (if addOk a b (g o 0) then "ok" else s!"FAIL:sign or abs(r - (a+b)) >= 2 ulp; a+b = {sum a b} ulpMax = {ulpMax a b}",
+      (if addOk a b (g o 0) then (if addTight a b (g o 0) then "ok" else "ok-not-tight")
+       else s!"FAIL:sign or abs(r - (a+b)) >= 2 ulp; a+b = {sum a b} ulpMax = {ulpMax a b}",
        if gapClass a b then "fpadd-exponent-gap-ge-32" else "")
-    else ("out", if gapClass a b then "fpadd-exponent-gap-ge-32" else "")
+    else (outVerdict blk a b o, if gapClass a b then "fpadd-exponent-gap-ge-32" else "")
   | "parts" => ("out", "")     -- field extraction: no property statement of its own (model-vs-real only)
   | "raw" => ("out", "")
   | _ => ("bad-op", "")
